@@ -101,23 +101,8 @@ def c12_f1_eager_when_no_label(case, detail):
             and _c12_no_requested_label(case) and detail.startswith("returned eager"))
 
 
-def c12_f2_spurious_nan_label(case, detail):
-    # dask labels without expected_groups, every label missing: one spurious NaN label (eager: no label at all)
-    return (case.get("kind") in ("unknown", "unknown-2d") and all(l is None for l in case["labels"])
-            and detail.startswith("labels differ") and "[nan]" in detail.replace("NaN", "nan"))
-
-
-def c12_f3_blockwise_dask_labels(case, detail):
-    # method='blockwise' with chunked labels: rechunk_for_blockwise / the per-block group count hand the lazy labels to
-    # pd.factorize / pd.unique (TypeError; nothing is computed only because pandas refuses a dask array)
-    return (case.get("kind") == "lazy" and case["by_dask"] and case.get("method") == "blockwise"
-            and detail.startswith("tried to inspect the values of a lazy array"))
-
-
 PREDICATES.update({
     "C12-F1": c12_f1_eager_when_no_label,
-    "C12-F2": c12_f2_spurious_nan_label,
-    "C12-F3": c12_f3_blockwise_dask_labels,
 })
 # ---- C15 (xarray_reduce vs native xarray groupby) ------------------------------------------------------
 # the harness attaches its classification of the call to the case: case["_cls"] = {gd, t, shortcut, needs_broadcast,
@@ -226,31 +211,6 @@ def _nax(case):
     return 1
 
 
-def c19_f1_argreduce_nd(case, detail):
-    # arg-reduction on chunked input whose labels are reduced over more than one axis: `assert len(axis) == 1`
-    return (case.get("func") in _ARG and case.get("layout") != "eager" and case.get("lnd", 1) >= 2 and _nax(case) >= 2
-            and case.get("extra") in (None, "dtype") and "AssertionError" in detail and "argreduce_preprocess" in detail)
-
-
-def c19_f2_blockwise_dask_labels(case, detail):
-    # method='blockwise' with dask labels: pandas is handed a dask array
-    return (case.get("method") == "blockwise" and bool(case.get("bydask")) and case.get("layout") != "eager"
-            and "TypeError" in detail and "requires a Series, Index, ExtensionArray" in detail)
-
-
-def c19_f3_rangeindex_reshape(case, detail):
-    # blockwise plan whose group labels are the RangeIndex of expected groups (reindex=True): `.reshape` on a RangeIndex
-    plan = (case.get("_plan") or {}).get("method")
-    return ((case.get("method") == "blockwise" or plan == "blockwise") and "AttributeError" in detail
-            and "'RangeIndex' object has no attribute 'reshape'" in detail)
-
-
-def c19_f4_allmissing_dask_labels(case, detail):
-    # every label missing, dask labels, no expected_groups: a spurious group labelled NaN is returned
-    return (case.get("layout") == "allmissing" and bool(case.get("bydask")) and not case.get("expected")
-            and case.get("method") in (None, "map-reduce") and detail.startswith("wrong-answer") and "shape" in detail)
-
-
 def c19_f5_nanfirstlast_int_partial_axes(case, detail):
     # nanfirst / nanlast (first / last) on non-float data, a subset of the label axes reduced over several blocks:
     # the integer intermediate fill (dtype minimum) overwrites real values in the combine
@@ -260,25 +220,6 @@ def c19_f5_nanfirstlast_int_partial_axes(case, detail):
             and (detail.startswith("wrong-answer") or detail.startswith("auto-differs") or "neither-matches" in detail))
 
 
-def c19_f6_axis_toomany(case, detail):
-    # more reduced axes than the labels have dimensions: `assert nax <= by_.ndim`
-    return case.get("extra") == "axis-toomany" and "AssertionError" in detail and "groupby_reduce" in detail
-
-
 PREDICATES.update({
-    "C19-F1": c19_f1_argreduce_nd,
-    "C19-F2": c19_f2_blockwise_dask_labels,
-    "C19-F3": c19_f3_rangeindex_reshape,
-    "C19-F4": c19_f4_allmissing_dask_labels,
     "C19-F5": c19_f5_nanfirstlast_int_partial_axes,
-    "C19-F6": c19_f6_axis_toomany,
 })
-
-
-def c19_f7_arg_float_dtype(case, detail):
-    # arg-reduction with a floating `dtype=` on input with leading dimensions: the float positions are used as indices
-    return (case.get("func") in _ARG and case.get("extra") == "dtype" and "TypeError" in detail
-            and "only int indices permitted" in detail)
-
-
-PREDICATES["C19-F7"] = c19_f7_arg_float_dtype
